@@ -261,6 +261,7 @@ func C09(c *Ctx) {
 	flushOrderGroup(c, r6)
 	headPersistGroup(c, "K12.vlog-head-persisted-on-file-change")
 	partialAckCoverageGroup(c, "K1.failed-request-gets-error")
+	segmentNamesGroup(c, "K12.segment-name-codec")
 	// ---- rule 5: durability results are never discarded ------------------------------
 	const r5 = "K8.durability-error-not-dropped"
 	c.Rule(r5, "the error result of manifest LogEdit(s)/LogValueLog*, wal Append/AppendRecords/Sync/Rotate, vlog SyncFIDs/SyncActive, File.Sync and File.Truncate is used (not dropped, not blank-assigned) at every call site in non-test module code; frozen exceptions carry a reason")
